@@ -1,5 +1,6 @@
 """R-PRED obligations: selection / pruning / guard / flush predicates decided over all order types."""
 from __future__ import annotations
+import re
 from itertools import product
 from ..astq import Node, up, strip, strip_cast, walk_no_nested_fn, calls, dominates, binding_before, precedes_toplevel
 from ..rules.pred import Pred, check_table, weak_orders, order_str, NotComparisonOnly
@@ -575,3 +576,56 @@ def ob_wig_flush(ctx, res):
 
 def ob_bed_flush(ctx, res):
     _flush(ctx, res, ctx.ast.fn(BW, "process_val"), "bedFlush")
+
+
+def ob_reader_writer_contradiction(ctx, res):
+    """C02-X1: no record the writer accepts may be refused by the reader (contradiction rule over order types of
+    (start, end, 0, chromosome length))"""
+    rd = ctx.ast.fn(RB, "get_block_entries")
+    refusals = []
+    for n in walk_no_nested_fn(rd.body):
+        if n.k == "if" and n.get("else") is None and re.search(r"return Err\(BBIReadError::InvalidFile", up(n["then"])):
+            refusals.append(n)
+    if len(refusals) != 1:
+        res.fail("contradiction/refusals", rd, "expected one record-level refusal in the block decoder, found %d" % len(refusals))
+        return
+    n = refusals[0]
+    # names bound from the three u32 reads: (chrom_id, start, end)
+    from ..rules.layout import consumptions
+    st = None
+    for m, big, lit in __import__("btverif.obs.rlayout", fromlist=["endian_matches"]).endian_matches(rd.body):
+        from ..astq import stmt_of
+        st = stmt_of(m)
+    names = [up(e) for e in st["pat"]["elems"]] if st is not None and st.k == "let" and st["pat"].k == "p_tuple" else None
+    if not names or len(names) != 3:
+        res.fail("contradiction/bind", rd, "record fields binding not recognised")
+        return
+
+    def role(term, node):
+        t = up(strip_cast(node))
+        if t == names[1]:
+            return "es"
+        if t == names[2]:
+            return "ee"
+        if term == "#0":
+            return "zero"
+        return None
+    try:
+        p = Pred(n["cond"])
+    except NotComparisonOnly as e:
+        res.fail("contradiction/not-cmp", n, str(e))
+        return
+    # writer accepts: start <= end, start < L, and all values >= 0 (u32)
+    wr = ctx.ast.fn(BW, "process_val")
+    roles = ["es", "ee", "zero", "L"]
+    side = lambda v: v["zero"] <= v["es"] <= v["ee"] and v["es"] < v["L"] and v["zero"] <= v["L"]
+    rows, cex, err = check_table(p, role, roles, side, lambda v: False, "implies")
+    if err:
+        res.fail("contradiction/idiom", n, err)
+        return
+    if cex:
+        res.fail("reject-accepted", n,
+                 "the reader refuses (`%s` -> InvalidFile) a record the writer accepts: order type %s satisfies the writer's guards (start <= end, "
+                 "start < chromosome length), i.e. the zero-length entry (0,0) is written and the whole block then fails to read" % (up(n["cond"]), cex[0]))
+        return
+    res.ok(n, "the reader's record refusal is disjoint from what the writer accepts (%d order types)" % rows)
